@@ -380,9 +380,9 @@ def ev_clock_single(case, rec):
 
 
 SUBCHECKS = [
-    Sub('remove', gen_remove, ev_remove, chunk=1, floor=100, guard=True),
-    Sub('other', gen_other, ev_other, chunk=2, floor=20, guard=True),
-    Sub('clock', gen_clock, ev_clock_single, chunk=1, floor=100, guard=True),
+    Sub('remove', gen_remove, ev_remove, chunk=1, floor=100, guard=True, envs=2),
+    Sub('other', gen_other, ev_other, chunk=2, floor=20, guard=True, envs=1),
+    Sub('clock', gen_clock, ev_clock_single, chunk=1, floor=100, guard=True, envs=1),
 ]
 
 
